@@ -18,16 +18,24 @@ from . import c02
 
 PROPERTY = "C07"
 LEVEL = "model_checking"
+IMPORT_PERMUTA = False      # imported here, under the lock-factory patch (see _lib)
 
 _PATCHED = [False]
+_SNAP = [None]
 
 
 def _lib():
+    if not _PATCHED[0]:
+        # every lock the library creates - at import time, lazily, per object, through captured
+        # factories - becomes a cooperative lock; everything else in the interpreter is untouched
+        pkg = S.import_with_cooperative_locks("permuta")
+        assert os.path.abspath(pkg.__file__).startswith(os.path.abspath(REPO) + os.sep), pkg.__file__
+        import permuta.perm_sets.permset as permset
+        S.cooperative_locks(permset)
+        _SNAP[0] = S.snapshot_state(permset)
+        _PATCHED[0] = True
     from permuta import Av, Perm
     import permuta.perm_sets.permset as permset
-    if not _PATCHED[0]:
-        S.cooperative_locks(permset)
-        _PATCHED[0] = True
     return Av, Perm, permset
 
 
@@ -108,6 +116,7 @@ class Harness:
 
     def setup(self):
         Av, Perm, permset = _lib()
+        S.restore_state(permset, _SNAP[0])
         S.reset_locks(permset)
         Av.clear_cache()
         objs = [A.mk(d) for d in self.basis]
